@@ -19,6 +19,9 @@ int main()
   toks.push_back({"%(bogus)", -1, "", 3}); toks.push_back({"%(time", -1, "", 3});
   Obl o1{"pattern.substitution", "C12", "", "fmt format string == pattern with each %(attr[:spec]) replaced by {[:spec]} plus newline; slot order = order of occurrence; used-set exact (no brace literals)"};
   Obl o2{"pattern.literal_braces", "C12", "pattern-literal-brace", "literal { and } of the pattern reach the output as text (escaped for fmt)"};
+  Obl o4{"pattern.output_equals_substitution", "C12", "", "PatternFormatter::format returns the pattern with every %(attribute[:spec]) replaced by the statement's value for that attribute (formatted with its spec) plus a final newline - formatted twice with the same object"};
+  static char const* VAL[16] = {"T", "f.cpp", "fn", "INFO", "I", "42", "lg", "/a/b/f.cpp", "tid", "tn", "pid", "/a/b/f.cpp:42", "f.cpp:42", "msg", "tg", ""};
+  static constexpr MacroMetadata md{"/a/b/f.cpp:42", "fn", "fmt", "tg", LogLevel::Info, MacroMetadata::Event::Log};
   Obl o3{"pattern.rejects_malformed", "C12", "", "an unknown attribute or an unterminated %( is rejected with an error when the formatter is created"};
   int T = (int)toks.size(); long total = 0; std::vector<int> idx; std::string sample;
   for (int len = 0; len <= K; len++)
@@ -30,7 +33,7 @@ int main()
         std::string pat; bool braces = false;
         for (int i = 0; i < len; i++) { auto& t = toks[idx[i]]; pat += t.text; if (t.kind == 2) braces = true; }
         // independent specification: scan the final pattern text
-        std::string exp; size_t order[16]; for (int a = 0; a < 16; a++) order[a] = 15; int ord = 0; unsigned set = 0; bool malformed = false, dup = false;
+        std::string exp, want_out; bool want_ok = true; size_t order[16]; for (int a = 0; a < 16; a++) order[a] = 15; int ord = 0; unsigned set = 0; bool malformed = false, dup = false;
         for (size_t q = 0; q < pat.size();)
         {
           if (pat[q] == '%' && q + 1 < pat.size() && pat[q + 1] == '(')
@@ -42,8 +45,9 @@ int main()
             if (a < 0) { malformed = true; break; }
             if ((set >> a) & 1) dup = true;
             exp += "{" + sp + "}"; order[a] = ord++; set |= 1u << a; q = close + 1;
+            try { want_out += fmtquill::format(fmtquill::runtime("{" + sp + "}"), std::string_view{VAL[a]}); } catch (std::exception&) { want_ok = false; }
           }
-          else { char c = pat[q]; if (c == '{' || c == '}') { exp += c; exp += c; } else exp += c; q++; }
+          else { char c = pat[q]; if (c == '{' || c == '}') { exp += c; exp += c; } else exp += c; want_out += c; q++; }
         }
         exp += "\n";
         if (!dup)
@@ -52,9 +56,19 @@ int main()
           bool threw = false, ok = true; std::string got;
           try
           {
-            PatternFormatterOptions o; o.format_pattern = pat; PatternFormatter f{o}; got = f._fmt_format;
+            PatternFormatterOptions o; o.format_pattern = pat; o.timestamp_pattern = "T"; PatternFormatter f{o}; got = f._fmt_format;
             ok = (f._fmt_format == exp);
             for (int a = 0; a < 16 && ok; a++) { if (((set >> a) & 1) != (unsigned)f._is_set_in_pattern[a]) ok = false; if (((set >> a) & 1) && f._order_index[a] != order[a]) ok = false; }
+            if (!malformed && !braces && want_ok)
+            {
+              // reference output: the final pattern text with each attribute replaced by its value formatted with its spec (built by the scanner above)
+              std::string want = want_out + "\n";
+              for (int round = 0; round < 2; ++round)
+              {
+                std::string out{f.format(1686614390ull * 1000000000ull, "tid", "tn", "pid", "lg", "INFO", "I", md, nullptr, "msg")};
+                check(o4, len == 0 ? out.empty() : out == want, pat + " -> " + out);
+              }
+            }
           }
           catch (std::exception&) { threw = true; }
           if (malformed) check(o3, threw, pat);
@@ -69,6 +83,6 @@ int main()
   printf("SPACE every sequence of <= %d tokens out of %d (16 attributes each at most once, 3 with a spec, literals x space %% ( ) [ { }, malformed %%(bogus) and unterminated %%(time)\n", K, T);
   printf("DISTINCT %ld\n", total);
   printf("SAMPLE %s\n", show(sample).c_str());
-  report(o1); report(o2); report(o3);
-  return (o1.failed || o2.failed || o3.failed) ? 1 : 0;
+  report(o1); report(o2); report(o3); report(o4);
+  return (o1.failed || o2.failed || o3.failed || o4.failed) ? 1 : 0;
 }
